@@ -404,6 +404,28 @@ func ruleBranchFlagCleared(r *Run, rule string) {
 				}
 			}
 			if len(outcomes) == 0 {
+				// one notification for both outcomes (variants without commit/rollback): an execute unit reaches a clearer
+				reached := false
+				for _, f := range v.fields {
+					if !f.isUnit || !f.roles["exec"] {
+						continue
+					}
+					for i := 0; i < f.unitT.NumMethods(); i++ {
+						if mfd, mpk := w.FuncDecl(f.unitT.Method(i)); mfd != nil && mfd.Body != nil {
+							if w.reaches(mpk.TypesInfo, mfd.Body, func(fn *types.Func) bool {
+								for _, c := range clearers {
+									if c == fn {
+										return true
+									}
+								}
+								return false
+							}) {
+								reached = true
+							}
+						}
+					}
+				}
+				r.check(reached, rule, fmt.Sprintf("%s:%s-cleared", v.rel, flag.Name()), flag.Pos(), "the flag raised when a conditional branch is dispatched is cleared when the execute unit resolves the branch")
 				continue
 			}
 			var bad []string
@@ -2709,6 +2731,231 @@ func ruleInOrderStall(r *Run, rule string) {
 				}
 				walk(fd.Body.List)
 				r.check(good, rule, fmt.Sprintf("%s.%s:stall-on-pending-write", v.rel, declName(fd)), fd.Pos(), "the execute unit leaves the step while a register the instruction reads has a pending write (positive test on ReadRegisters(), before the instruction's addresses are computed and before it runs)")
+			}
+		}
+	}
+}
+
+// ruleEveryExecutionReleased (R04.21 / R07.27): the scoreboard entries raised at dispatch are
+// released for EVERY instruction that leaves the pipeline, whatever it did. (a) In the write
+// unit's accept step, which branches on what the execution changed (register / memory /
+// nothing), every branch — the final "nothing to write" one included — releases, directly or
+// in its continuation, as soon as one of them does. (b) An execute unit that performs a store
+// in place (the line is in the cache) and ends the instruction there releases in that branch.
+// An entry that is never released holds every later instruction that touches the register.
+func ruleEveryExecutionReleased(r *Run, rule string) {
+	w := r.W
+	for _, v := range variants(w) {
+		if v.pkg == nil || !v.pipelined() {
+			continue
+		}
+		info := v.info
+		releases := func(n ast.Node) bool {
+			found := false
+			if n == nil {
+				return false
+			}
+			ast.Inspect(n, func(m ast.Node) bool {
+				if c, ok := m.(*ast.CallExpr); ok {
+					if fn, ok := typeutil.Callee(info, c).(*types.Func); ok && strings.HasPrefix(fn.Name(), "DeletePending") {
+						found = true
+					}
+				}
+				return true
+			})
+			return found
+		}
+		mentionsFlag := func(e ast.Expr, name string) bool {
+			found := false
+			ast.Inspect(e, func(m ast.Node) bool {
+				if sel, ok := m.(*ast.SelectorExpr); ok && sel.Sel.Name == name {
+					if s := info.Selections[sel]; s != nil && s.Kind() == types.FieldVal {
+						found = true
+					}
+				}
+				return true
+			})
+			return found
+		}
+		variantReleases := false
+		for _, sf := range v.pkg.Syntax {
+			if releases(sf) {
+				variantReleases = true
+			}
+		}
+		// (b) matters where a leaked READ entry holds a later writer for ever: the scoreboard tracks read
+		// registers (AddPendingRegisters) and write-after-read is not renamed away
+		tracksReads := w.reaches(info, v.run, func(fn *types.Func) bool { return fn.Name() == "AddPendingRegisters" })
+		renames := w.reaches(info, v.run, func(fn *types.Func) bool { return fn.Name() == "TransactionRATWrite" })
+		inPlaceMatters := tracksReads && !renames
+		for _, f := range v.fields {
+			if !f.isUnit || f.unitT == nil {
+				continue
+			}
+			for i := 0; i < f.unitT.NumMethods(); i++ {
+				fd, _ := w.FuncDecl(f.unitT.Method(i))
+				if fd == nil || fd.Body == nil || !variantReleases {
+					continue
+				}
+				tn := f.unitT.Obj().Name()
+				n := 0
+				ast.Inspect(fd.Body, func(m ast.Node) bool {
+					is, ok := m.(*ast.IfStmt)
+					if !ok {
+						return true
+					}
+					// (a) the head of a chain on RegisterChange … MemoryChange
+					if f.roles["write"] && !f.roles["exec"] && mentionsFlag(is.Cond, "RegisterChange") {
+						// only where the scoreboard tracks READ registers too: an execution that writes no register
+						// then still holds entries (a write-only scoreboard has nothing to release for it)
+						tracksReads := false
+						ast.Inspect(fd.Body, func(k ast.Node) bool {
+							if c, ok := k.(*ast.CallExpr); ok {
+								if fn, ok := typeutil.Callee(info, c).(*types.Func); ok && strings.HasPrefix(fn.Name(), "DeletePending") && len(c.Args) == 2 {
+									tracksReads = true
+								}
+							}
+							return true
+						})
+						if !tracksReads {
+							return false
+						}
+						n++
+						var missing []string
+						cur := is
+						k := 0
+						for {
+							k++
+							refuses := false
+							for _, st := range cur.Body.List {
+								if es, ok := st.(*ast.ExprStmt); ok {
+									if c, ok := es.X.(*ast.CallExpr); ok {
+										if id, ok := c.Fun.(*ast.Ident); ok && id.Name == "panic" {
+											refuses = true // this kind of execution is not accepted here at all
+										}
+									}
+								}
+							}
+							if !releases(cur.Body) && !refuses {
+								missing = append(missing, fmt.Sprintf("branch %d", k))
+							}
+							switch e := cur.Else.(type) {
+							case *ast.IfStmt:
+								cur = e
+								continue
+							case *ast.BlockStmt:
+								if !releases(e) {
+									missing = append(missing, "else")
+								}
+							default:
+								missing = append(missing, "no else (an execution that changes nothing falls through unreleased)")
+							}
+							break
+						}
+						r.check(len(missing) == 0, rule, fmt.Sprintf("%s.(%s).%s:release-every-kind#%d", v.rel, tn, fd.Name.Name, n), is.Pos(), "every kind of execution the write unit accepts (register result, store, nothing to write) releases the scoreboard (missing: %v)", missing)
+						return false
+					}
+					// (b) a store performed in place by the execute unit
+					if f.roles["exec"] && inPlaceMatters && mentionsFlag(is.Cond, "MemoryChange") && terminates(is.Body.List) {
+						stores := w.reaches(info, is.Body, func(fn *types.Func) bool {
+							sig := fn.Type().(*types.Signature)
+							return sig.Recv() != nil && isCompType(sig.Recv().Type(), "LRUCache") && fn.Name() == "Write"
+						})
+						if stores {
+							n++
+							r.check(releases(is.Body), rule, fmt.Sprintf("%s.(%s).%s:release-in-place-store#%d", v.rel, tn, fd.Name.Name, n), is.Pos(), "a store the execute unit performs in place (the line is cached) and ends there releases the scoreboard in that branch")
+						}
+					}
+					return true
+				})
+			}
+		}
+	}
+}
+
+// ruleFetchCleansAfterRedirect (R03.31): a redirect of the fetch unit that asks for it
+// (reset(pc, cleanPending=true) at a jump resolution) removes the sequential pcs the unit had
+// already pushed behind the jump: the bool field set from the redirect's flag guards a Clean of
+// the unit's output bus and is lowered there. Otherwise the instructions behind the jump are
+// decoded and executed as soon as the decode stall ends.
+func ruleFetchCleansAfterRedirect(r *Run, rule string) {
+	w := r.W
+	for _, v := range variants(w) {
+		if v.pkg == nil || !v.pipelined() {
+			continue
+		}
+		info := v.info
+		for _, f := range v.pkg.Syntax {
+			for _, d := range f.Decls {
+				fd, ok := d.(*ast.FuncDecl)
+				if !ok || fd.Body == nil || fd.Recv == nil || fd.Type.Params == nil {
+					continue
+				}
+				// redirect(pc int32, clean bool): u.F = clean
+				var boolParam types.Object
+				for _, fl := range fd.Type.Params.List {
+					for _, nm := range fl.Names {
+						if typeName(info.TypeOf(fl.Type)) == "bool" {
+							boolParam = info.Defs[nm]
+						}
+					}
+				}
+				if boolParam == nil {
+					continue
+				}
+				var flag *types.Var
+				for _, st := range fd.Body.List {
+					if as, ok := st.(*ast.AssignStmt); ok && len(as.Lhs) == 1 && len(as.Rhs) == 1 {
+						if id, ok := ast.Unparen(as.Rhs[0]).(*ast.Ident); ok && info.Uses[id] == boolParam {
+							if sel, ok := ast.Unparen(as.Lhs[0]).(*ast.SelectorExpr); ok {
+								if s := info.Selections[sel]; s != nil && s.Kind() == types.FieldVal {
+									flag, _ = s.Obj().(*types.Var)
+								}
+							}
+						}
+					}
+				}
+				recvT := recvNamed(info, fd)
+				if flag == nil || recvT == nil || !strings.Contains(strings.ToLower(recvT.Obj().Name()), "fetch") {
+					continue
+				}
+				good := false
+				for _, f2 := range v.pkg.Syntax {
+					ast.Inspect(f2, func(m ast.Node) bool {
+						is, ok := m.(*ast.IfStmt)
+						if !ok {
+							return true
+						}
+						sel, ok := ast.Unparen(is.Cond).(*ast.SelectorExpr)
+						if !ok || info.Selections[sel] == nil || info.Selections[sel].Obj() != flag {
+							return true
+						}
+						cleans, lowers := false, false
+						for _, st := range is.Body.List {
+							switch x := st.(type) {
+							case *ast.ExprStmt:
+								if c, ok := x.X.(*ast.CallExpr); ok {
+									if cs, ok := c.Fun.(*ast.SelectorExpr); ok && cs.Sel.Name == "Clean" && (isCompType(info.TypeOf(cs.X), "BufferedBus") || isCompType(info.TypeOf(cs.X), "SimpleBus")) {
+										cleans = true
+									}
+								}
+							case *ast.AssignStmt:
+								if len(x.Lhs) == 1 && len(x.Rhs) == 1 {
+									if ls, ok := ast.Unparen(x.Lhs[0]).(*ast.SelectorExpr); ok && info.Selections[ls] != nil && info.Selections[ls].Obj() == flag {
+										if tv := info.Types[x.Rhs[0]]; tv.Value != nil && tv.Value.String() == "false" {
+											lowers = true
+										}
+									}
+								}
+							}
+						}
+						if cleans && lowers {
+							good = true
+						}
+						return true
+					})
+				}
+				r.check(good, rule, fmt.Sprintf("%s.%s:cleans-fetched-pcs", v.rel, declName(fd)), fd.Pos(), "the flag set by a redirect that asks for it guards a Clean of the fetch unit's output bus and is lowered there")
 			}
 		}
 	}
